@@ -82,8 +82,10 @@ def rust_path(s):
     return "g::" + (s["module"] + "::" if s["module"] else "") + s["name"]
 
 
-def type_expr(m, located, by_comp):
-    """Exact expected Rust type of a member as source text, or None when the target struct is not in the output."""
+def type_expr(m, located, by_comp, struct_comp=None):
+    """Exact expected Rust type of a member as source text, or None when the target struct is not in the output. struct_comp: the
+    component whose struct the member belongs to — a non-repeated member of that very type needs an indirection, which is the
+    shared-reference helper (transparent per C19)."""
     kind, t = m["target"]
     if kind == "builtin":
         inner = BUILTINS[t]
@@ -93,6 +95,8 @@ def type_expr(m, located, by_comp):
         if len(hits) != 1:
             return None
         inner = rust_path(hits[0])
+        if t is struct_comp and m["wrapper"] != "Vec":
+            inner = f"g::multi_ref::MultiRef<{inner}>"
     if m["wrapper"]:
         return f"{m['wrapper']}<{inner}>"
     return inner
